@@ -1,4 +1,5 @@
 import RaftVerif.Model.Lease
+import RaftVerif.Proofs.Leader
 /-! # C13 — leader lease.  Registered: `LS.isolated_leader_steps_down` (timed model of
 `checkLeaderLease` and its re-arming: once fewer than a quorum of voters answer, the server is
 leader only at instants ≤ t0 + 2·lease, for every arrival pattern of the remaining answers),
